@@ -250,7 +250,10 @@ impl VArc {
     fn check_ty(&self, what: &str) {
         let t = cur_ty();
         if t != 0xFF && self.is_live() && self.ty() != t {
-            report("O-type", "C12", format!("the reference count of value id={} (pointee type {}) was {} inside an operation on a container of pointee type {} {}", self.id(), self.ty(), what, t, F9B_MARK));
+            // finding F9b gives a reference back (a decrement) with the wrong type; an increment of
+            // a value of another type would be something else
+            let mark = if what == "decremented" { F9B_MARK } else { "" };
+            report("O-type", "C12", format!("the reference count of value id={} (pointee type {}) was {} inside an operation on a container of pointee type {} {}", self.id(), self.ty(), what, t, mark));
         }
     }
     pub fn is_live(&self) -> bool {
@@ -274,7 +277,9 @@ impl VArc {
             report("O-uaf", "C01", format!("dereference of a destroyed value id={} ({})", id, what));
             return id;
         }
-        if o.creator.load(Ordering::Relaxed) != me_thread() {
+        let cr = o.creator.load(Ordering::Relaxed);
+        if cr != me_thread() && cr != 0 {
+            // (values made by the setup thread are published by thread creation, not by the crate)
             CROSS_READ.fetch_add(1, Ordering::Relaxed);
         }
         let c = o.cell.load(Ordering::Relaxed);
@@ -335,7 +340,8 @@ impl Drop for VArc {
         if old == 1 {
             rt::h_fence_acq();
             // destructor
-            if o.creator.load(Ordering::Relaxed) != me_thread() {
+            let cr = o.creator.load(Ordering::Relaxed);
+            if cr != me_thread() && cr != 0 {
                 CROSS_DESTROY.fetch_add(1, Ordering::Relaxed);
             }
             let d = o.destroyed.fetch_add(1, Ordering::Relaxed);
